@@ -1,7 +1,8 @@
 /-
   C07 — annotations: what the evaluator's compressed annotation record stands for, that a failed
   subschema and `not` contribute nothing, and that `unevaluatedProperties` / `unevaluatedItems` are applied
-  to exactly the complement of the evaluated set.  Property theorems only (proofs: JSV/Proofs/Refine*.lean).
+  to exactly the complement of the evaluated set.  Property theorems only (proofs: JSV/Proofs/Refine*.lean; for the
+  section "algebraic laws" — `child_locations_invisible`, `cousins_invisible` — JSV/Proofs/SpecLawsLoc.lean).
 -/
 import JSV.Props.C01
 import JSV.Proofs.SpecLawsLoc
